@@ -2,6 +2,7 @@ import UtilModel.Model.Date
 import UtilModel.Lemmas.Calendar
 import UtilModel.Lemmas.TieTactics
 /-! # package `date`: the model agrees with the decision functions translated from the source on this run -/
+set_option linter.unusedSimpArgs false
 namespace U.CodeTies
 open U
 
@@ -28,4 +29,181 @@ theorem validDate_tie (y : Int) (m d : Nat) : Date.validDate y m d = Gen.date_va
   repeat' split
   all_goals (simp only [Bool.false_eq_true, decide_eq_true_eq, iff_false, iff_true]; omega)
 
+/-! ## the filters (`date/filter.go`)
+
+The `Contains` methods are Boolean formulas over `Equal`/`Before`/`After` calls on the filter's fields. Both the model's
+comparisons and their translations are first characterised as propositions about the (year, month, day) triples
+(`lexLt`); the formulas are then compared as propositions (`dateprop`), so `a.Before(b)` vs `b.After(a)`, reordered
+disjuncts, negated forms and if-chains instead of `||` all keep the ties true. -/
+
+/-- lexicographic "earlier than" on (year, month, day) triples -/
+def lexLt (a : Int) (b c : Nat) (x : Int) (y z : Nat) : Prop := a < x ∨ (a = x ∧ (b < y ∨ (b = y ∧ c < z)))
+
+theorem gen_before_iff (a : Int) (b c : Nat) (x : Int) (y z : Nat) :
+    Gen.date_Before a b c x y z = true ↔ lexLt a b c x y z := by
+  unfold Gen.date_Before lexLt
+  ifprop
+
+theorem gen_after_iff (a : Int) (b c : Nat) (x : Int) (y z : Nat) :
+    Gen.date_After a b c x y z = true ↔ lexLt x y z a b c := by
+  unfold Gen.date_After lexLt
+  ifprop
+
+theorem gen_equal_iff (a : Int) (b c : Nat) (x : Int) (y z : Nat) :
+    Gen.date_Equal a b c x y z = true ↔ (a = x ∧ b = y ∧ c = z) := by
+  unfold Gen.date_Equal
+  ifprop
+
+theorem before_iff' (d e : Date.Date) : d.before e = true ↔ lexLt d.year d.month d.day e.year e.month e.day := by
+  unfold Date.Date.before lexLt
+  ifprop
+theorem after_iff' (d e : Date.Date) : d.after e = true ↔ lexLt e.year e.month e.day d.year d.month d.day := by
+  unfold Date.Date.after lexLt
+  ifprop
+theorem equal_iff' (d e : Date.Date) : d.equal e = true ↔ (d.year = e.year ∧ d.month = e.month ∧ d.day = e.day) := by
+  unfold Date.Date.equal
+  ifprop
+
+/-- Boolean formulas over the date comparisons (either side: model methods or their translations): compare them
+as propositions about the (year, month, day) triples -/
+macro "dateprop" : tactic =>
+  `(tactic| (rw [Bool.eq_iff_iff]
+             try simp only [Bool.and_eq_true, Bool.or_eq_true, Bool.not_eq_true', ← Bool.not_eq_true,
+               gen_before_iff, gen_after_iff, gen_equal_iff, before_iff', after_iff', equal_iff', lexLt]
+             try (repeat' split)
+             all_goals first
+               | omega
+               | (simp only [Bool.and_eq_true, Bool.or_eq_true, Bool.not_eq_true', ← Bool.not_eq_true, Bool.false_eq_true,
+                    true_iff, iff_true, false_iff, iff_false, not_true_eq_false, not_false_eq_true,
+                    gen_before_iff, gen_after_iff, gen_equal_iff, before_iff', after_iff', equal_iff', lexLt]; omega)
+               | (simp_all; omega)))
+
+theorem contains_no_tie (x : Date.Date) : Date.Filter.no.contains x = Gen.date_filterNo_Contains x.year x.month x.day := by
+  unfold Date.Filter.contains Gen.date_filterNo_Contains
+  first | rfl | dateprop
+theorem contains_date_tie (d x : Date.Date) :
+    (Date.Filter.date d).contains x = Gen.date_filterDate_Contains d.year d.month d.day x.year x.month x.day := by
+  unfold Date.Filter.contains Gen.date_filterDate_Contains
+  dateprop
+theorem contains_from_tie (f x : Date.Date) :
+    (Date.Filter.from f).contains x = Gen.date_filterFrom_Contains f.year f.month f.day x.year x.month x.day := by
+  unfold Date.Filter.contains Gen.date_filterFrom_Contains
+  dateprop
+theorem contains_to_tie (t x : Date.Date) :
+    (Date.Filter.to t).contains x = Gen.date_filterTo_Contains t.year t.month t.day x.year x.month x.day := by
+  unfold Date.Filter.contains Gen.date_filterTo_Contains
+  dateprop
+theorem contains_fromTo_tie (f t x : Date.Date) :
+    (Date.Filter.fromTo f t).contains x
+      = Gen.date_filterFromTo_Contains f.year f.month f.day t.year t.month t.day x.year x.month x.day := by
+  unfold Date.Filter.contains Gen.date_filterFromTo_Contains
+  dateprop
+
+
+/-! ### `FilterFromTo`: which filter is built, or which error -/
+
+def triple (d : Date.Date) : Int × Nat × Nat := (d.year, d.month, d.day)
+
+/-- a model filter as the translation writes it: Go type name and its `Date` fields in declaration order -/
+def encFilter : Date.Filter → String × List (Int × Nat × Nat)
+  | .no => ("filterNo", [])
+  | .to t => ("filterTo", [triple t])
+  | .from f => ("filterFrom", [triple f])
+  | .date d => ("filterDate", [triple d])
+  | .fromTo f t => ("filterFromTo", [triple f, triple t])
+
+/-- the Go sentinel an error class of package `date` stands for -/
+def encErr : Err → String
+  | .invalidFromOrTo => "ErrInvalidFromOrTo" | .invalidLength => "ErrInvalidLength"
+  | .unsupportedVersion => "ErrUnsupportedVersion" | .invalidDate => "ErrInvalidDate" | e => e.name
+
+def encOut {α β} (enc : α → β) : Outcome α → Except String β
+  | .ok a => .ok (enc a) | .err e => .error (encErr e) | .panic => .error "panic"
+
+/-- leaves of a decision tree over date comparisons: equal results, or contradictory path conditions -/
+macro "dateleaf" : tactic =>
+  `(tactic| first
+      | rfl
+      | (exfalso
+         simp only [Bool.and_eq_true, Bool.or_eq_true, Bool.not_eq_true', ← Bool.not_eq_true, Bool.false_eq_true,
+           gen_before_iff, gen_after_iff, gen_equal_iff, before_iff', after_iff', equal_iff', lexLt] at *
+         omega)
+      | (simp only [encOut, encFilter, triple, Except.ok.injEq, Except.error.injEq, Prod.mk.injEq, List.cons.injEq, and_true, true_and,
+           Bool.and_eq_true, Bool.or_eq_true, Bool.not_eq_true', ← Bool.not_eq_true, Bool.false_eq_true,
+           gen_before_iff, gen_after_iff, gen_equal_iff, before_iff', after_iff', equal_iff', lexLt] at *
+         omega)
+      | (simp_all; done))
+
+theorem filterFromTo_tie (fr to : Option Date.Date) :
+    encOut encFilter (Date.filterFromTo fr to)
+      = Gen.date_FilterFromTo fr.isNone (fr.getD Date.zero).year (fr.getD Date.zero).month (fr.getD Date.zero).day
+          to.isNone (to.getD Date.zero).year (to.getD Date.zero).month (to.getD Date.zero).day := by
+  cases fr <;> cases to <;>
+    simp only [Date.filterFromTo, Gen.date_FilterFromTo, Option.isNone_none, Option.isNone_some, Option.getD_some, Option.getD_none] <;>
+    (try (repeat' split)) <;> dateleaf
+
+/-! ## the binary form (`MarshalBinary`, `UnmarshalBinary`)
+
+Translated in the typed mode of the translator (`tools/extract/typed.go`): Go's `int32`/`uint8` arithmetic over `Int`
+with explicit wraps (`Gen.wrap_int32`, `Gen.wrap_uint8`), `x >> k` as floor division, `|` of bytes at disjoint
+positions as `+`. The model writes the same arithmetic with `wrap32`, `byteOf`, `% 256`; equal results are decided
+by `omega` after unfolding both, so other but equal ways of writing the arithmetic keep the ties true. -/
+
+theorem marshalBinary_tie (d : Date.Date) :
+    Gen.date_MarshalBinary d.year d.month d.day = .ok ((Date.marshalBinary d).map (fun b : Nat => (b : Int))) := by
+  unfold Gen.date_MarshalBinary Date.marshalBinary Date.byteOf Date.wrap32 Gen.wrap_int32 Gen.wrap_uint8
+  simp only [List.map_cons, List.map_nil, Except.ok.injEq, List.cons.injEq, and_true, Gen.date_version]
+  omega
+
+/-- a stored date as the translation writes the receiver: three integers -/
+theorem vd_congr {y1 y2 m d : Int} (h : y1 = y2) : Gen.date_validDate y1 m d = Gen.date_validDate y2 m d := by rw [h]
+def itriple (d : Date.Date) : Int × Int × Int := (d.year, d.month, d.day)
+
+/-- leaves of the binary decoder's decision tree: equal results (fixed-width arithmetic unfolded, decided by
+`omega`) or contradictory path conditions; `validDate` stays opaque -/
+macro "binleaf" : tactic =>
+  `(tactic| first
+      | (with_reducible rfl)
+      | (exfalso
+         simp only [Bool.not_eq_true', ← Bool.not_eq_true, Bool.and_eq_true, Bool.or_eq_true, beq_iff_eq, bne_iff_ne, ne_eq,
+           decide_eq_true_eq, Decidable.not_not, Gen.date_version] at * <;> (first | contradiction | omega))
+      | (simp only [encOut, encErr, itriple, Except.ok.injEq, Except.error.injEq, Prod.mk.injEq, reduceCtorEq, true_and, and_true,
+           Bool.not_eq_true', ← Bool.not_eq_true, Bool.and_eq_true, Bool.or_eq_true, beq_iff_eq, bne_iff_ne, ne_eq, decide_eq_true_eq,
+           Date.wrap32, Gen.wrap_int32, Gen.wrap_uint8, Gen.date_version] at * <;> omega)
+      | (simp_all; done))
+
+/-- one list shape of the decoder: unfold both sides; name the decoded year of either side (the first fixed-width
+expression met) and show the two equal as fixed-width arithmetic, so that the two `validDate` calls coincide; make
+that call one Boolean, split every condition, close the leaves -/
+macro "bincase" : tactic =>
+  `(tactic| (
+    simp only [Gen.date_UnmarshalBinary, Date.unmarshalBinary, validDate_tie, List.length_cons, List.length_nil,
+      List.getD_eq_getElem?_getD, List.getElem?_cons_zero, List.getElem?_cons_succ, Option.getD_some]
+    try generalize hY : Gen.wrap_int32 _ = Yg
+    try (generalize hM : Date.wrap32 _ = Ym
+         have hYM : Yg = Ym := by
+           subst hY hM
+           simp only [Date.wrap32, Gen.wrap_int32, Gen.wrap_uint8]
+           omega
+         subst hYM
+         clear hM)
+    try clear hY
+    try generalize Gen.date_validDate _ _ _ = g
+    try (repeat' split)
+    all_goals binleaf))
+
+theorem unmarshalBinary_tie (dy dm dd : Int) (bs : Bytes) :
+    Gen.date_UnmarshalBinary dy dm dd bs = encOut itriple (Date.unmarshalBinary bs) := by
+  match bs with
+  | [] => bincase
+  | [_] => bincase
+  | [_, _] => bincase
+  | [_, _, _] => bincase
+  | [_, _, _, _] => bincase
+  | [_, _, _, _, _] => bincase
+  | [_, _, _, _, _, _] => bincase
+  | [v, b1, b2, b3, b4, m, d] => bincase
+  | _ :: _ :: _ :: _ :: _ :: _ :: _ :: _ :: r => bincase
+
 end U.CodeTies
+
